@@ -203,16 +203,34 @@ def gen_cases(ctx):
     common.ensure_repo_on_path()
     from harness import persist_gen as pg, pm, outline_gen as og
     rng = ctx.rng
-    thorough = ctx.thorough
+    # search mode (a proof obligation or the correspondence broke): a fresh, medium-sized sample — the quick set has just been
+    # run through the monitors without a failure — plus the programs of the diverging cases
+    search = getattr(ctx, 'search', False) and ctx.tier != 'thorough'
+    thorough = ctx.thorough and not search
+
+    if search:
+        import random
+        rng = random.Random(ctx.seed * 7919 + 4242)
+
+    def size(quick, thorough_, search_):
+        return search_ if search else thorough_ if thorough else quick
     programs = []      # (name, prog, inputs)
+    if search:
+        for h in getattr(ctx, 'hints', [])[:20]:
+            try:
+                c = h['case']
+                programs.append(('hint:' + c['name'], _fix_prog(c['prog']) if isinstance(next(iter(c['prog'].get('fns', {0: 0})), 0), str) else c['prog'],
+                                 c.get('inputs')))
+            except Exception:
+                pass
     for name, prog in pm.CORPUS.items():
         programs.append((f'pm:{name}', prog, None))
     for name, prog in pg.PROC_CORPUS.items():
         programs.append((f'pg:{name}', prog, {'a': 1, 'b': (1, 2), 'ns': {'d0': {'deep': [0]}}}))
         programs.append((f'pg:{name}/noinputs', prog, None))
-    for i in range(40 if not thorough else 400):
+    for i in range(size(40, 400, 100)):
         programs.append((f'pmrand{i}', pm.random_prog(rng), None))
-    for i in range(90 if not thorough else 900):
+    for i in range(size(90, 900, 250)):
         programs.append((f'pgrand{i}', pg.random_proc(rng), pg.random_inputs(rng)))
     # generated work chains: every outline shape with <= N instructions + random nested outlines
     nshape = 0
@@ -220,7 +238,7 @@ def gen_cases(ctx):
     for n in range(1, full + 2):
         shapes = list(og.shapes(n))
         if n > full:                                  # the next size: a seeded sample
-            shapes = rng.sample(shapes, 120 if not thorough else 1500)
+            shapes = rng.sample(shapes, size(120, 1500, 300))
         for sh in shapes:
             block = og.number(sh)
             nshape += 1
@@ -229,7 +247,7 @@ def gen_cases(ctx):
             if thorough or nshape % 3 == 0:
                 programs.append((f'shape{nshape}r', {'kind': 'outline', 'block': block, 'tabs': _prune(block, og.random_tabs(rng, ids=4))},
                                  {'a': nshape}))
-    for i in range(70 if not thorough else 800):
+    for i in range(size(70, 800, 200)):
         block = og.random_block(rng, rng.randint(1, 3))
         programs.append((f'outline{i}', {'kind': 'outline', 'block': block, 'tabs': _prune(block, og.random_tabs(rng))},
                          rng.choice([None, {'a': [i]}])))
